@@ -13,7 +13,7 @@ RULE = ("nine initialisers x shapes of rank 2-5 with >= 20000 elements and fan_i
 ASSUMPTIONS = ["6-sigma bands: false-alarm probability < 2e-9 per test; std of the sample std = sigma*sqrt((kurtosis-1)/(4n))",
                "NumPy's global generator is seeded from VERIF_SEED and the case seed"]
 SHARD_TIMEOUT = {"quick": 600, "thorough": 1800}
-SHAPES = [[200, 100], [100, 400], [50, 20, 5, 4], [64, 8, 7, 7], [300, 70], [40, 100, 5], [10, 20, 5, 5, 4], [400, 50]]
+SHAPES = [[200, 100], [100, 400], [50, 20, 5, 4], [64, 8, 7, 7], [300, 70], [40, 100, 5], [10, 20, 5, 5, 4], [400, 50], [32, 16, 3, 7], [16, 8, 2, 5, 3]]
 RANDOM_INITS = ["uniform_", "normal_", "xavier_uniform_", "xavier_normal_", "kaiming_uniform_", "kaiming_normal_"]
 
 
@@ -27,7 +27,7 @@ def gen_cases(tier, seed):
                 if tier == "quick" and (si + len(name)) % 2:
                     continue
                 c = {"init": name, "shape": shp, "dtype": ["float32", "float64"][(si + rep) % 2], "req": bool((si + rep) % 3 == 0),
-                     "seed": int(rng.integers(2 ** 31))}
+                     "seed": int(rng.integers(2 ** 31)), "np_scalar_args": bool((si + rep + len(name)) % 4 == 0)}
                 if name == "uniform_":
                     a = float(rng.uniform(-3, 1)); c["args"] = {"a": a, "b": a + float(rng.uniform(0.1, 4))}
                 elif name == "normal_":
@@ -42,7 +42,7 @@ def gen_cases(tier, seed):
                 else:
                     c["args"] = {}
                 cases.append(c)
-        for layer in ("Linear", "Conv1d", "Conv2d"):
+        for layer in ("Linear", "Conv1d", "Conv2d", "Linear-fan1", "Conv1d-fan1", "Conv2d-nonsquare"):
             cases.append({"init": "layer:" + layer, "seed": int(rng.integers(2 ** 31)), "bias": True})
     cases.append({"init": "tables", "seed": 0})
     for shp in ([3], [7, 2], [2, 2, 2]):
@@ -89,7 +89,8 @@ def band_uniform(x, lo, hi):
     if abs(x.std() - sd) > 6 * sd * math.sqrt(0.8 / (4 * n)):
         out.append(f"std {x.std():.6g} outside the 6-sigma band around {sd:.6g}")
     w = hi - lo
-    if x.max() < hi - 1e-3 * w or x.min() > lo + 1e-3 * w:
+    delta = min(0.5, 21.0 / n)            # P(no sample in the outer delta-fraction of the range) = (1-delta)^n <= 1e-9
+    if x.max() < hi - delta * w or x.min() > lo + delta * w:
         out.append(f"range not filled: [{x.min():.6g},{x.max():.6g}] vs [{lo:.6g},{hi:.6g}]")
     return out
 
@@ -153,6 +154,12 @@ def run_case(ns, ctx, c):
                 m = ns.nn.Linear(50, 20); fan = 50
             elif layer == "Conv1d":
                 m = ns.nn.Conv1d(6, 10, 5); fan = 30
+            elif layer == "Linear-fan1":
+                m = ns.nn.Linear(1, 60); fan = 1
+            elif layer == "Conv1d-fan1":
+                m = ns.nn.Conv1d(1, 60, 1); fan = 1
+            elif layer == "Conv2d-nonsquare":
+                m = ns.nn.Conv2d(2, 30, (1, 5)); fan = 10
             else:
                 m = ns.nn.Conv2d(4, 8, (3, 2)); fan = 24
             ws.append(m.weight.data.ravel().copy()); bs.append(m.bias.data.ravel().copy())
@@ -172,15 +179,17 @@ def run_case(ns, ctx, c):
     t = T(np.full(shp, 7.0, dtype=dt), requires_grad=c["req"])
     fn = getattr(init, name)
 
+    npsc = (lambda v: np.float64(v)) if c.get("np_scalar_args") else (lambda v: v)      # hyper-parameters given as NumPy scalars
+
     def call():
         if name == "uniform_":
-            return fn(t, a["a"], a["b"])
+            return fn(t, npsc(a["a"]), npsc(a["b"]))
         if name == "normal_":
-            return fn(t, a["mean"], a["std"])
+            return fn(t, npsc(a["mean"]), npsc(a["std"]))
         if name == "constant_":
-            return fn(t, a["val"])
+            return fn(t, npsc(a["val"]))
         if name.startswith("xavier"):
-            return fn(t, gain=a["gain"])
+            return fn(t, gain=npsc(a["gain"]))
         if name.startswith("kaiming"):
             return fn(t, a=a["a"], mode=a["mode"], nonlinearity=a["nonlinearity"])
         return fn(t)
